@@ -71,7 +71,8 @@ class Ellipsoid(Shape3D):
 
     @centroid.setter
     def centroid(self, value):
-        self._centroid = np.asarray(value)
+        # Copy, so that the shape does not share memory with the caller's array.
+        self._centroid = np.array(value)
 
     @property
     def a(self):
